@@ -371,6 +371,35 @@ func (fr *Frame) enterLoop(li *loopInfo, cur *State) *State {
 			}
 		}
 	}
+	// relative accumulator invariant (semantic, needs no syntactic ownership): a slice local that the loop only ever
+	// re-assigns with `a = append(a, ...)` keeps its backing array or moves to an array allocated during the loop
+	li.accRel = nil
+	li.accRelGet = nil
+	li.accRelName = nil
+	{
+		wmPre := r.heapGet(cur, r.eng.heapKeyAlloc())
+		for _, a := range locals {
+			a := a
+			if _, ok := types.Unalias(deref(a.Type())).Underlying().(*types.Slice); !ok {
+				continue
+			}
+			pre, ok := cur.locals[a]
+			if !ok || !onlyAppendedTo(a, li) {
+				continue
+			}
+			preArr := r.def("accpre", app("Int", "sl_arr", pre))
+			rel := func(v Term) Term {
+				arr := app("Int", "sl_arr", v)
+				return or(eq(arr, preArr), app("Bool", ">", arr, wmPre))
+			}
+			li.accRel = append(li.accRel, rel)
+			li.accRelGet = append(li.accRelGet, func(s *State) (Term, bool) { t, ok := s.locals[a]; return t, ok })
+			li.accRelName = append(li.accRelName, a.Comment)
+			if v, ok := st.locals[a]; ok {
+				r.assume(st, rel(v))
+			}
+		}
+	}
 	// automatic loop frames
 	for _, k := range keys {
 		if frameKeySkipped(k) || !(strings.HasPrefix(k, "H|") || strings.HasPrefix(k, "A|") || strings.HasPrefix(k, "M")) {
@@ -450,6 +479,11 @@ func (fr *Frame) checkLoopStep(li *loopInfo, st *State) {
 			}
 			g := li.accOwn[i](v)
 			r.oblige(st, "loop-step", fmt.Sprintf("%s#loop%d:%s:auto-owned:%s", name, li.ord, stepName, a.Comment), fr.safetyTags(), g, "append accumulator stays on an array allocated by this function", true, li.header.Instrs[0].Pos())
+		}
+	}
+	for i, rel := range li.accRel {
+		if v, ok := li.accRelGet[i](st); ok {
+			r.oblige(st, "loop-step", fmt.Sprintf("%s#loop%d:%s:auto-acc:%s", name, li.ord, stepName, li.accRelName[i]), fr.safetyTags(), rel(v), "append accumulator keeps its array or moves to one allocated during the loop", true, li.header.Instrs[0].Pos())
 		}
 	}
 	// implicit frame invariant (see enterLoop)
